@@ -46,6 +46,8 @@ def norm(e, subst, syms=None, depth=0):
     if k == "Member":
         return norm(e["b"], subst, syms, depth) + "." + e["f"]
     if k == "Index":
+        if ir.int_val(e["i"]) == 0:
+            return "*(%s)" % norm(e["b"], subst, syms, depth)        # p[0] is *p
         return "%s[%s]" % (norm(e["b"], subst, syms, depth), norm(e["i"], subst, syms, depth))
     return "<%s>" % k
 
@@ -101,6 +103,12 @@ class WipeClient(ir.Client):
         return st
 
 
+def _is_deref(e):
+    """*p or p[0]"""
+    e = strip(e)
+    return (e.get("k") == "Un" and e.get("op") == "*") or (e.get("k") == "Index" and ir.int_val(e["i"]) == 0)
+
+
 def check_blobclose(prog, res):
     f = prog.funcs.get("blobClose")
     cr = prog.funcs.get("blobCreate")
@@ -116,7 +124,7 @@ def check_blobclose(prog, res):
     cr_syms, rz_syms, cl_syms = vp.single_assign_syms(cr), vp.single_assign_syms(rz), vp.single_assign_syms(f)
     alloc_norm = norm(allocs[0]["a"][0], [(lambda e: e.get("k") == "Ref" and e.get("id") == size_p, "SIZE")], cr_syms)
     # header store *ptr = size and return ptr + 1
-    hdr_store = any(n.get("k") == "Bin" and n["op"] == "=" and strip(n["x"]).get("k") == "Un" and strip(n["x"])["op"] == "*"
+    hdr_store = any(n.get("k") == "Bin" and n["op"] == "=" and _is_deref(n["x"])
                     and strip(n["y"]).get("k") == "Ref" and strip(n["y"])["id"] == size_p for n in walk(cr.body))
     if hdr_store:
         res.proved("R15.2-header", function="blobCreate", file=cr.relfile, line=cr.line, construct="*ptr = size",
@@ -128,7 +136,7 @@ def check_blobclose(prog, res):
     rsz_p = rz.params[1]["id"]
     reallocs = [c for c in ir.calls(rz.body) if c.get("callee") == "memRealloc"]
     ok = len(reallocs) == 1 and norm(reallocs[0]["a"][1], [(lambda e: e.get("k") == "Ref" and e.get("id") == rsz_p, "SIZE")], rz_syms) == alloc_norm
-    hdr2 = any(n.get("k") == "Bin" and n["op"] == "=" and strip(n["x"]).get("k") == "Un" and strip(n["x"])["op"] == "*"
+    hdr2 = any(n.get("k") == "Bin" and n["op"] == "=" and _is_deref(n["x"])
                and strip(n["y"]).get("k") == "Ref" and strip(n["y"])["id"] == rsz_p for n in walk(rz.body))
     if ok and hdr2:
         res.proved("R15.2-header", function="blobResize", file=rz.relfile, line=rz.line, construct="realloc size / header",
